@@ -25,6 +25,7 @@ func c04(c *core.Ctx) map[string]interface{} {
 	r4len(c)
 	r4seqof(c)
 	r4frag(c)
+	r4entry(c)
 	include(c, "C03")
 	return map[string]interface{}{"ngap_types": len(s.Types)}
 }
@@ -397,6 +398,11 @@ func r3int(c *core.Ctx) {
 				break
 			}
 			shifts := map[int64]*ssa.BasicBlock{}
+			type edgeShift struct {
+				k    int64
+				pred *ssa.BasicBlock
+			}
+			var allShifts []edgeShift
 			other := false
 			for i, e := range ph.Edges {
 				bo, isBo := e.(*ssa.BinOp)
@@ -407,6 +413,7 @@ func r3int(c *core.Ctx) {
 				if isBo && bo.Op == token.SHR {
 					if k, isK := core.ConstInt(bo.Y); isK {
 						shifts[k] = b.Preds[i]
+						allShifts = append(allShifts, edgeShift{k, b.Preds[i]})
 						continue
 					}
 				}
@@ -438,8 +445,12 @@ func r3int(c *core.Ctx) {
 				return "?"
 			}
 			found = true
-			for k, pred := range shifts {
+			for ei, es := range allShifts {
+				k, pred := es.k, es.pred
 				cl := class(pred)
+				if ei > 0 {
+					// a second way into the same class keeps the class's key; a differing one is a new obligation
+				}
 				want := map[string]int64{"unconstrained": 7, "constrained>64K": 8}[cl]
 				key := fmt.Sprintf("aper.appendInteger:octet-count-shift(%s)", cl)
 				if cl == "?" {
@@ -695,6 +706,43 @@ func r4frag(c *core.Ctx) {
 		}
 		if n == 0 {
 			c.SoftUndecided("%s: no accumulator found in the fragment loop", name)
+		}
+	}
+}
+
+// ---------------------------------------------------------------- R4.entry
+// ngap.Decoder / ngap.Encoder hand the bytes / the PDU to the codec and return its
+// verdict. A test of the input in front of the codec (a framing or length pre-check)
+// can refuse input the codec would decode; whether it refuses conformant encodings is
+// not something this analysis can establish for an arbitrary pre-check, so such an
+// entry point is reported as undecided, never as passing.
+func r4entry(c *core.Ctx) {
+	const R = "R4.entry"
+	c.Rule(R, "ngap.Decoder and ngap.Encoder pass their argument to the codec unconditionally and return the codec's result")
+	for _, t := range []struct{ fn, callee string }{{"Decoder", pAper + ".UnmarshalWithParams"}, {"Encoder", pAper + ".MarshalWithParams"}} {
+		fn := mustFunc(c, pNgap, t.fn)
+		p := core.NewPather(fn)
+		calls := core.CallsTo(fn, t.callee)
+		key := "ngap." + t.fn
+		if len(calls) != 1 {
+			c.Fail(R, key+":codec-call", fn.Pos(), "expected exactly one call of %s, found %d", shortName(t.callee), len(calls))
+			continue
+		}
+		arg := p.Path(calls[0].Common().Args[0])
+		okArg := arg == "p0"
+		branches := 0
+		for _, b := range fn.Blocks {
+			if _, isIf := b.Instrs[len(b.Instrs)-1].(*ssa.If); isIf && !calls[0].Block().Dominates(b) {
+				branches++
+			}
+		}
+		switch {
+		case !okArg:
+			c.Fail(R, key+":argument", calls[0].Pos(), "the codec is given %s, not the function's own argument", clip(arg))
+		case branches > 0:
+			c.SoftUndecided("ngap.%s tests its input before handing it to the codec (%d branch(es) in front of %s): whether the pre-check refuses only malformed input cannot be established statically", t.fn, branches, shortName(t.callee))
+		default:
+			c.Ok(R, key, fn.Pos(), "argument handed to the codec unconditionally")
 		}
 	}
 }
